@@ -988,6 +988,11 @@ func (c *Client) doClose() {
 func (c *Client) reset() {
 	c.doClose()
 
+	// a request that failed while the connection was being dismissed
+	// (OPTIONS, TEARDOWN) is not a reason to terminate the client:
+	// the connection is replaced.
+	c.mustClose = false
+
 	c.state = clientStateInitial
 	c.session = ""
 	c.sender = nil
